@@ -124,8 +124,10 @@ static InstResult run_printf(const std::vector<CrashInfo> &cr, size_t L, int sha
 	});
 	if(shard == 0) {
 		// long digit runs at every numeric position (int overflow in the accumulators)
-		for(size_t len : {9, 10, 11, 12, 19, 20, 21}) for(char dgt : {'1', '9', '2'}) {
-			std::string run(len, dgt);
+		std::vector<std::string> runs;
+		for(size_t len : {9, 10, 11, 12, 19, 20, 21}) for(char dgt : {'1', '9', '2'}) runs.push_back(std::string(len, dgt));
+		for(const char *b : {"2147483647", "2147483648", "2147483649", "21474836470", "4294967295", "4294967296", "9223372036854775807", "9223372036854775808", "18446744073709551615", "18446744073709551616"}) runs.push_back(b);
+		for(const std::string &run : runs) {
 			for(const std::string &f : {"%" + run + "d", "%." + run + "d", "%" + run + "." + run + "x", "%-" + run + "s", "%." + run + "s", "%0" + run + "u", "%" + run + "c", "%" + run + "$d"})
 				E.eval("printf " + printable(f), "printf.parse-long-number", [&] { run_printf_case(f, gfmt, gslots); });
 		}
@@ -158,8 +160,10 @@ static InstResult run_fmt(const std::vector<CrashInfo> &cr, size_t L, int shard,
 		if((idx++ % nshards) != (size_t)shard) return;
 		for_all_strings(alpha, L - 2, [&](const std::string &rest) { one(pre + rest); });
 	});
-	if(shard == 0) for(size_t len : {9, 10, 11, 12, 19, 20, 21, 25}) for(char dgt : {'1', '9', '2'}) {
-		std::string run(len, dgt);
+	std::vector<std::string> runs;
+	for(size_t len : {9, 10, 11, 12, 19, 20, 21, 25}) for(char dgt : {'1', '9', '2'}) runs.push_back(std::string(len, dgt));
+	for(const char *b : {"2147483647", "2147483648", "2147483649", "21474836470", "4294967295", "4294967296", "9223372036854775807", "9223372036854775808", "18446744073709551615", "18446744073709551616"}) runs.push_back(b);
+	if(shard == 0) for(const std::string &run : runs) {
 		for(const std::string &f : {"{:" + run + "}", "{" + run + "}", "{:0" + run + "x}", "{" + run + ":" + run + "}", "{0:" + run + "d} {1}"}) one(f);
 	}
 	return E.finish();
@@ -203,8 +207,10 @@ static InstResult run_cmdline(const std::vector<CrashInfo> &cr, size_t L, int sh
 		if((idx++ % nshards) != (size_t)shard) return;
 		for_all_strings(alpha, L - 2, [&](const std::string &rest) { std::string f = pre + rest; E.eval("cmdline " + printable(f), "cmdline.parse", [&] { cmdline_case(f, g); }); });
 	});
-	if(shard == 0) for(size_t len : {9, 10, 11, 12, 19, 20, 21}) for(char dgt : {'1', '9', '2'}) {
-		std::string run(len, dgt);
+	std::vector<std::string> runs;
+	for(size_t len : {9, 10, 11, 12, 19, 20, 21}) for(char dgt : {'1', '9', '2'}) runs.push_back(std::string(len, dgt));
+	for(const char *b : {"2147483647", "2147483648", "2147483649", "21474836470", "4294967295", "4294967296", "9223372036854775807", "9223372036854775808", "18446744073709551615", "18446744073709551616"}) runs.push_back(b);
+	if(shard == 0) for(const std::string &run : runs) {
 		for(const std::string &f : {"o=" + run, "f=" + run + " o=" + run, "\"o=" + run + "\"", "f1=" + run}) E.eval("cmdline " + printable(f), "cmdline.parse-long-number", [&] { cmdline_case(f, g); });
 	}
 	return E.finish();
